@@ -33,6 +33,83 @@ CHECKS = {
         "any exception counts as a decoding error; reference decoder is the spec for corrupted-but-parsable inputs",
         "DESIGN.md 3/C16",
     ),
+    "C04": (
+        "exploration",
+        "runtime monitoring: structural invariant checker + reference layout model + history/aliasing monitor on a long-lived PackedEncoder",
+        "every layout returned by the real packed encoder tiled its message, matched the reference layout and did not depend on earlier generate() calls; signal-block options sat exactly on their field's leaf.",
+        "trusted base: vf/ref/layout.py (40 lines); enum wire width = max(1, bit_length(max))",
+        "DESIGN.md 3/C04",
+    ),
+    "C05": (
+        "exploration",
+        "runtime monitoring: two independent DBC readers (cantools + own) vs the real layout; end-to-end frame oracle (reference packer <-> cantools)",
+        "every generated DBC described exactly the layout of every CAN binding, per bus; packed frames decoded through the DBC to the original values and cantools encoded them to the same bytes.",
+        "relative to the layout returned by the real encoder (C04 judges it); cantools is one of the two readers",
+        "DESIGN.md 3/C05",
+    ),
+    "C07": (
+        "exploration",
+        "runtime monitoring: print->parse oracle with an expected-tree model, metamorphic formatting variants, sys.monitoring production coverage",
+        "to_dict() of the parsed tree equalled the expected tree for every description and every formatting variant; every grammar production was exercised.",
+        "trusted base: printer + expected-tree model in vf/gen/schema.py; known finding K4 (type names with a builtin-type prefix) is probed separately",
+        "DESIGN.md 3/C07",
+    ),
+    "C08": (
+        "exploration",
+        "runtime monitoring: post-parse reference walker on accepted trees + error-shape monitor on mutated (undeclared/forward/self/misspelled/imported-later) schemas",
+        "no accepted tree had a dangling or mis-kinded reference; every injected unresolved reference was returned as Err naming type and struct and citing the right line.",
+        "type names unique; the first unresolved reference in source order is the one reported",
+        "DESIGN.md 3/C08",
+    ),
+    "C09": (
+        "exploration",
+        "runtime monitoring: reference well-formedness predicate (written twice) vs verify() on a bounded-exhaustive small scope + random trees + permutations; dispatch probes through the public register API",
+        "verify() agreed with the specification in both directions on every enumerated / generated tree and check set, under permutations; recording checks saw every node exactly once.",
+        "exhaustive only within the stated small-scope bounds; ambiguous trees (CAN binding without id, non-CAN struct > 64 bits) are not judged",
+        "DESIGN.md 3/C09",
+    ),
+    "C10": (
+        "fault_enumeration",
+        "runtime monitoring with fault injection: every rejection source x generator x directory state; sys.addaudithook file-system event log + content-hash snapshots",
+        "every enumerated rejection returned Err and produced no file-system mutation; every accepted run wrote exactly the files the plug-in returned.",
+        "faults enumerated: each general rule, each plug-in rule, a synthetic rejecting check in each of the 8 categories (first/last)",
+        "DESIGN.md 3/C10",
+    ),
+    "C11": (
+        "exploration",
+        "runtime monitoring: exception-escape / render / citation monitors over prefixes, token mutants, out-of-domain literals, random text, deep nesting, faulty modules; CPU-time alarm",
+        "no exception escaped, every Err rendered, every cited .fcp line existed, on every generated input.",
+        "nesting bounded at 200; any BaseException other than KeyboardInterrupt counts as an escape",
+        "DESIGN.md 3/C11",
+    ),
+    "C12": (
+        "exploration",
+        "runtime monitoring: faithfulness comparator against an expected reflection record + round trip through the real codec + reference-codec bytes under reflection.fcp",
+        "the reflection record of every generated schema was faithful, encodable, canonical and round-tripped.",
+        "trusted base: vf/ref/reflect.py, vf/ref/minifcp.py, vf/ref/codec.py",
+        "DESIGN.md 3/C12",
+    ),
+    "C14": (
+        "exploration",
+        "runtime monitoring: outcome + audit-hook monitors on oversize / variable-size CAN bindings; extent/overlap scanners over every generated DBC and C source",
+        "every oversize or variable-size CAN binding was rejected by both generators without output; no generated signal extended beyond its message or overlapped another.",
+        "exception or Err both count as rejection",
+        "DESIGN.md 3/C14",
+    ),
+    "C17": (
+        "exploration",
+        "runtime monitoring: differential file-map comparison across fresh processes (hash seeds), in-process histories and tree reuse",
+        "all generators produced identical file maps (stamp line removed) across hash seeds, histories and reuse of the same tree.",
+        "only the documented stamp line is normalised",
+        "DESIGN.md 3/C17",
+    ),
+    "C20": (
+        "exploration",
+        "runtime monitoring: split-vs-single-file tree comparator over random module trees + fault injection into modules with error-shape/citation monitors",
+        "every split schema had the same declarations as the single-file schema; every injected module fault was returned as Err naming the module / missing file.",
+        "modules are dependency-closed; per-kind multiset comparison (ordered equality recorded)",
+        "DESIGN.md 3/C20",
+    ),
 }
 
 NOT_YET = "check not built yet in this round (see DESIGN.md section 3 for the planned monitor)"
